@@ -189,28 +189,29 @@ def names_distinct(env, what):
         raise Inexact(f"{what}: a variable occurs twice in the environment")
 
 
-def pstmt(prog, ctx, s, env):
+def pstmt(prog, ctx, s, env, rec=None):
+    rec = rec or pstmt
     s = unwrap(s)
     tag = s.tag
     names_distinct(env, tag)
     if tag == 'Literal':
         env2 = env + [(ident(s['var']), 'Ext', 'i64', ('int', s['lit'] & M64))]
-        return Bounce(lambda: pstmt(prog, ctx, s['next'], env2))
+        return Bounce(lambda: rec(prog, ctx, s['next'], env2))
     if tag == 'Op':
         a = plook(env, ident(s['fst']), 'op')
         b = plook(env, ident(s['snd']), 'op')
         v = ('int', norm(ctx.arith(s['op'].tag, want_int(a[3]), want_int(b[3]))))
         env2 = env + [(ident(s['var']), 'Ext', 'i64', v)]        # operands remain available afterwards
-        return Bounce(lambda: pstmt(prog, ctx, s['next'], env2))
+        return Bounce(lambda: rec(prog, ctx, s['next'], env2))
     if tag == 'PrintI64':
         a = plook(env, ident(s['var']), 'print')
         ctx.emit('print', bool(s['newline']), want_int(a[3]))
-        return Bounce(lambda: pstmt(prog, ctx, s['next'], env))
+        return Bounce(lambda: rec(prog, ctx, s['next'], env))
     if tag == 'IfC':
         a = want_int(plook(env, ident(s['fst']), 'if')[3])
         b = want_int(plook(env, ident(s['snd']), 'if')[3]) if s['snd'] is not None else 0
         c = ctx.compare(s['sort'].tag, a, b)
-        return Bounce(lambda: pstmt(prog, ctx, s['thenc'] if c else s['elsec'], env))
+        return Bounce(lambda: rec(prog, ctx, s['thenc'] if c else s['elsec'], env))
     if tag == 'Exit':
         return Halt(plook(env, ident(s['var']), 'exit')[3])
     if tag == 'Let':
@@ -226,7 +227,7 @@ def pstmt(prog, ctx, s, env):
             raise Inexact(f"let {s['var']['name']}: arguments do not match the constructor's signature in kind and type")
         v = ('obj', ident(s['tag']), [e[3] for e in suf], [(e[1], e[2]) for e in suf])
         env2 = rest + [(ident(s['var']), 'Prd', tykey(s['ty']), v)]
-        return Bounce(lambda: pstmt(prog, ctx, s['next'], env2))
+        return Bounce(lambda: rec(prog, ctx, s['next'], env2))
     if tag == 'Switch':
         if not env or env[-1][0] != ident(s['var']):
             raise Inexact(f"switch {s['var']['name']}: the scrutinee is not the last variable of the environment")
@@ -243,7 +244,7 @@ def pstmt(prog, ctx, s, env):
                     if (chi_of(b), tykey(b['ty'])) != kt:
                         raise Inexact(f"switch {s['var']['name']}: clause binding {b['var']['name']} differs in kind or type from the stored field")
                 env2 = rest + [(ident(b['var']), chi_of(b), tykey(b['ty']), x) for b, x in zip(bs, v[2])]
-                return Bounce(lambda: pstmt(prog, ctx, c['body'], env2))
+                return Bounce(lambda: rec(prog, ctx, c['body'], env2))
         raise Stuck(f"no clause for {v[1][0]}")
     if tag == 'Create':
         if s['context'] is None:
@@ -251,7 +252,7 @@ def pstmt(prog, ctx, s, env):
         rest, suf = expect_suffix(env, s['context']['bindings'], f"create {s['var']['name']}")
         v = ('clo', s['clauses'], [(e[0], e[1], e[2], e[3]) for e in suf], tykey(s['ty']))
         env2 = rest + [(ident(s['var']), 'Cns', tykey(s['ty']), v)]
-        return Bounce(lambda: pstmt(prog, ctx, s['next'], env2))
+        return Bounce(lambda: rec(prog, ctx, s['next'], env2))
     if tag == 'Invoke':
         if not env or env[-1][0] != ident(s['var']):
             raise Inexact(f"invoke {s['var']['name']}: the closure is not the last variable of the environment")
@@ -268,7 +269,7 @@ def pstmt(prog, ctx, s, env):
                     if chi_of(b) != e[1] or tykey(b['ty']) != e[2]:
                         raise Inexact(f"invoke {s['var']['name']}.{s['tag']['name']}: argument position differs in kind or type")
                 env2 = [(ident(b['var']), chi_of(b), tykey(b['ty']), e[3]) for b, e in zip(bs, argsenv)] + list(v[2])
-                return Bounce(lambda: pstmt(prog, ctx, c['body'], env2))
+                return Bounce(lambda: rec(prog, ctx, c['body'], env2))
         raise Stuck(f"no method {s['tag']['name']}")
     if tag == 'Call':
         d = prog.defs.get(ident(s['label']))
@@ -281,7 +282,7 @@ def pstmt(prog, ctx, s, env):
             if chi_of(b) != e[1] or tykey(b['ty']) != e[2]:
                 raise Inexact(f"call {s['label']['name']}: position of {b['var']['name']} differs in kind or type")
         env2 = [(ident(b['var']), chi_of(b), tykey(b['ty']), e[3]) for b, e in zip(bs, env)]
-        return Bounce(lambda: pstmt(prog, ctx, d['body'], env2))
+        return Bounce(lambda: rec(prog, ctx, d['body'], env2))
     if tag == 'Substitute':
         env2 = []
         for newb, old in s['rearrange']:
@@ -289,5 +290,83 @@ def pstmt(prog, ctx, s, env):
             if chi_of(newb) != e[1] or tykey(newb['ty']) != e[2]:
                 raise Inexact(f"substitute: {newb['var']['name']} := {old['name']} changes kind or type")
             env2.append((ident(newb['var']), e[1], e[2], e[3]))
-        return Bounce(lambda: pstmt(prog, ctx, s['next'], env2))
+        return Bounce(lambda: rec(prog, ctx, s['next'], env2))
     raise Stuck(f"AxM: no rule for {tag}")
+
+
+# ------------------------------------------------------------------ per-definition mode (exactness on every path)
+
+def opaque_of(prog, chi, ty, ctx, depth=0):
+    """an arbitrary value of the given kind and type: integers are fresh symbols, objects have an undetermined
+    constructor (a switch forks into every clause), closures are opaque (an invoke ends the path)"""
+    if chi == 'Ext':
+        return ('int', fresh('pd'))
+    if chi == 'Prd':
+        return ('opq_obj', ty)
+    return ('opq_clo', ty)
+
+
+def run_definition(prog, name, ctx):
+    """walk one definition of a linearised program from an arbitrary environment of its parameter types; calls and
+    invokes of opaque closures end the path after their environment has been checked"""
+    d = prog.defs[name]
+    env = [(ident(b['var']), chi_of(b), tykey(b['ty']), opaque_of(prog, chi_of(b), tykey(b['ty']), ctx)) for b in d['context']['bindings']]
+    r = trampoline(pstmt_pd(prog, ctx, d['body'], env), ctx)
+    return 0
+
+
+def pstmt_pd(prog, ctx, s, env):
+    s0 = unwrap(s)
+    tag = s0.tag
+    names_distinct(env, tag)
+    if tag == 'Switch':
+        if not env or env[-1][0] != ident(s0['var']):
+            raise Inexact(f"switch {s0['var']['name']}: the scrutinee is not the last variable of the environment")
+        v = env[-1][3]
+        if v[0] == 'opq_obj':
+            decl = prog.types.get(v[1])
+            if decl is None:
+                raise Stuck(f"unknown type {v[1]}")
+            clauses = s0['clauses']
+            if len(clauses) != len(decl['xtors']):
+                raise Inexact(f"switch {s0['var']['name']}: {len(clauses)} clauses for a type with {len(decl['xtors'])} constructors")
+            # choose a clause: a chain of free boolean decisions
+            idx = 0
+            while idx < len(clauses) - 1 and not ctx.decide(fresh_bool('clause')):
+                idx += 1
+            c = clauses[idx]
+            sig = [x for x in decl['xtors'] if ident(x['name']) == ident(c['xtor'])]
+            if not sig:
+                raise Inexact(f"switch {s0['var']['name']}: clause {c['xtor']['name']} is not a constructor of the type")
+            sb, bs = sig[0]['args']['bindings'], c['context']['bindings']
+            if len(sb) != len(bs) or any(chi_of(x) != chi_of(y) or tykey(x['ty']) != tykey(y['ty']) for x, y in zip(sb, bs)):
+                raise Inexact(f"switch {s0['var']['name']}: clause {c['xtor']['name']} does not match the constructor's signature")
+            env2 = env[:-1] + [(ident(b['var']), chi_of(b), tykey(b['ty']), opaque_of(prog, chi_of(b), tykey(b['ty']), ctx)) for b in bs]
+            return Bounce(lambda: pstmt_pd(prog, ctx, c['body'], env2))
+    if tag == 'Invoke':
+        if not env or env[-1][0] != ident(s0['var']):
+            raise Inexact(f"invoke {s0['var']['name']}: the closure is not the last variable of the environment")
+        v = env[-1][3]
+        if v[0] == 'opq_clo':
+            decl = prog.types.get(v[1])
+            sig = [x for x in (decl['xtors'] if decl else []) if ident(x['name']) == ident(s0['tag'])]
+            if not sig:
+                raise Inexact(f"invoke {s0['var']['name']}.{s0['tag']['name']}: not a destructor of the closure's type")
+            sb = sig[0]['args']['bindings']
+            argsenv = env[:-1]
+            if len(sb) != len(argsenv) or any(chi_of(x) != e[1] or tykey(x['ty']) != e[2] for x, e in zip(sb, argsenv)):
+                raise Inexact(f"invoke {s0['var']['name']}.{s0['tag']['name']}: the variables before the closure do not match the destructor's signature")
+            return Halt(('int', 0))
+    if tag == 'Call':
+        d = prog.defs.get(ident(s0['label']))
+        if d is None:
+            raise Stuck(f"call of unknown definition {s0['label']['name']}")
+        bs = d['context']['bindings']
+        if len(bs) != len(env) or any(chi_of(b) != e[1] or tykey(b['ty']) != e[2] for b, e in zip(bs, env)):
+            raise Inexact(f"call {s0['label']['name']}: the environment is not the callee's parameter list")
+        return Halt(('int', 0))
+    if tag == 'Exit':
+        plook(env, ident(s0['var']), 'exit')
+        return Halt(('int', 0))
+    # every other statement: the ordinary positional rule, continuing in per-definition mode
+    return pstmt(prog, ctx, s, env, rec=pstmt_pd)
